@@ -1,6 +1,9 @@
 import Cutadapt.Properties.C04
 #print axioms Cutadapt.C04.each_read_one_fate
 #print axioms Cutadapt.C04.each_pair_one_fate
+#print axioms Cutadapt.C04.makeSteps_terminal
+#print axioms Cutadapt.C04.filterIdents_nodup
+#print axioms Cutadapt.C04.redirects_apart
 #print axioms Cutadapt.C04.exSteps_terminal
 #print axioms Cutadapt.C04.summarize_append
 #print axioms Cutadapt.C04.figures_are_sums_over_reads_single
@@ -11,3 +14,5 @@ import Cutadapt.Properties.C04
 #print axioms Cutadapt.C04.report_categories_complete
 #print axioms Cutadapt.C04.report_adds_up_single
 #print axioms Cutadapt.C04.report_adds_up_paired
+#print axioms Cutadapt.C04.cli_counts_single
+#print axioms Cutadapt.C04.cli_counts_paired
